@@ -63,6 +63,8 @@ type Opts struct {
 	Twins      bool // sibling struct fields whose types differ only in skipped fields
 	DeepPtrs   bool // user pointers to nil-able things: *[]T, *map[K]V, **T
 	NilElems   bool // arrays, slices and maps whose ELEMENTS are nil-able ([3]*T, [2][]T, []map[string]T, map[string]*T): replaced as a whole, never slot by slot
+	OddTags    bool // dials:"-" next to other, also unconventional, tag parts (`dials:"-" json:secret`)
+	ZeroSized  bool // zero-sized exported leaves: struct{}, [0]T
 	IfaceSkip  bool // interface{} fields (defaults: nil, a func or a chan; no layer ever sets them)
 }
 
@@ -91,6 +93,12 @@ func elemType(r *coqfmt.Rng, o Opts) reflect.Type {
 
 // leafType draws a non-struct field type.
 func leafType(r *coqfmt.Rng, o Opts) reflect.Type {
+	if o.ZeroSized && r.Chance(1, 12) {
+		if r.Chance(1, 2) {
+			return reflect.TypeOf(struct{}{})
+		}
+		return reflect.ArrayOf(0, basic(r))
+	}
 	for {
 		switch r.Intn(10) {
 		case 0, 1, 2, 3:
@@ -189,6 +197,10 @@ func GenStruct(r *coqfmt.Rng, o Opts, depth int) reflect.Type {
 				t = GenStruct(r, o, depth+1)
 			}
 			sf = reflect.StructField{Name: name, Type: t, Tag: `dials:"-"`}
+			if o.OddTags && r.Chance(1, 3) {
+				sf.Tag = reflect.StructTag(coqfmt.Pick(r, []string{"dials:\"-\" json:secret", "json:\"x\" dials:\"-\"",
+					"dials:\"-\" yaml:\"a,omitempty\" bad", "dials:\"-\"  dialsdesc:\"kept out\"", "dials:\"-\" :"}))
+			}
 		case o.IfaceSkip && x < 16 && r.Chance(1, 2):
 			sf = reflect.StructField{Name: name, Type: reflect.TypeOf((*interface{})(nil)).Elem()}
 		case o.Skipped && x < 18:
